@@ -46,6 +46,9 @@ type Config struct {
 	FaultGap  int      `json:"fault_gap"`   // mean number of I/O operations between random faults; 0 = none
 	FaultKind []string `json:"fault_kinds"` // kinds of random faults
 	IOYield   bool     `json:"io_yield"`    // forced scheduling decision at every I/O boundary
+	// LateWrite models TCP: after the peer has closed, local writes are still
+	// accepted (and the bytes vanish) instead of failing at once.
+	LateWrite bool `json:"late_write"`
 }
 
 // FaultAt plans a fault at the Op-th I/O operation (0 based) of connection
@@ -534,6 +537,12 @@ func (c *Conn) Write(p []byte) (int, error) {
 		}
 		if h.rclosed {
 			h.mu.Unlock()
+			if c.nw.cfg.LateWrite {
+				c.nw.fire("late-write-accepted")
+				zzsim.Event("write pair=%d side=%d n=%d (after peer close: lost)", c.pair, c.side, len(p))
+				c.ioYield("net.Write.ret")
+				return len(p), nil
+			}
 			return n, ErrPipe
 		}
 		if n < limit {
